@@ -113,6 +113,13 @@ of_status_t of_linear_binary_code_decode_with_new_symbol (of_linear_binary_code_
 			__FUNCTION__, (of_is_source_symbol ((of_cb_t*)ofcb, new_symbol_esi)) ? "source" : "parity",
 			new_symbol_esi, ofcb->nb_source_symbol_ready, ofcb->nb_repair_symbol_ready))
 
+	if (ofcb->pchk_matrix == NULL)
+	{
+		/* of_finish_decoding() has already turned the parity check matrix into the linear system of
+		 * the Gaussian elimination: the symbol is registered, there is no equation left to inject it in. */
+		OF_EXIT_FUNCTION
+		return OF_STATUS_OK;
+	}
 	/*
 	 * Step 2: Inject the symbol value in each equation it is involved
 	 */
